@@ -446,6 +446,35 @@ def shrink_case(pipe, case, sep, want):
     return f" {sep} ".join([hdr] + ops)
 
 
+def shrink_history(pipe, prefix, failing, want="violation"):
+    """The failing case does not fail when run alone in a fresh process: the implementation carries state from one
+    call to the next.  Find a short list of earlier cases after which it still fails (all run in one process, in order).
+    Returns the list of case lines (ending with `failing`) or None when even the whole prefix does not reproduce it."""
+    def fails(hist):
+        res = pipe.eval_cases(hist + [failing], "hist")
+        return classify(res[-1]) == want
+    hist = list(prefix)
+    if not fails(hist):
+        return None
+    budget = 60
+    chunk = max(1, len(hist) // 2)
+    while budget > 0 and hist and chunk >= 1:
+        progressed = False
+        i = 0
+        while i < len(hist) and budget > 0:
+            cand = hist[:i] + hist[i + chunk:]
+            budget -= 1
+            if fails(cand):
+                hist = cand
+                progressed = True
+            else:
+                i += chunk
+        if chunk == 1 and not progressed:
+            break
+        chunk = max(1, chunk // 2) if chunk > 1 else (1 if progressed else 0)
+    return hist + [failing]
+
+
 # ----------------------------------------------------------------------------------------------
 # Known findings, evidence, verdicts
 # ----------------------------------------------------------------------------------------------
